@@ -1105,18 +1105,23 @@ func vc08Run(
 		bad("framing: %s", out.frameErr)
 	}
 
+	// It must be a DNS message.
+	m := &dns.Msg{}
+	uerr := m.Unpack(out.msg)
+	if uerr == nil {
+		c.OutTC = m.Truncated
+		c.OutCounts = [3]int{len(m.Answer), len(m.Ns), vc08NonOpt(m.Extra)}
+	}
+
 	// (1) size.
 	if len(out.msg) > limit {
 		what := fmt.Sprintf("size: %d octets written, limit is %d", len(out.msg), limit)
-		m := &dns.Msg{}
-		switch uerr := m.Unpack(out.msg); {
+		switch {
 		case tr == vc08DoH && rf.Pad >= 0 && len(out.msg) <= 65535+4+responsePaddingMaxSize:
 			// Padding is added after the size check; DoH has no 64 KiB guard.
-			c.OutLen = len(out.msg)
 			cls(fnd.match(vc08KnownDoH64K, what, &c))
 		case uerr == nil && tr.datagram() && len(m.Answer)+len(m.Ns)+vc08NonOpt(m.Extra) == 0:
 			// Header, question and OPT alone: nothing is left to drop.
-			c.OutLen = len(out.msg)
 			cls(fnd.match(vc08KnownOptAlone, what+" (header, question and OPT only)", &c))
 		default:
 			bad("%s", what)
@@ -1127,16 +1132,12 @@ func vc08Run(
 		cls("out-exactly-limit")
 	}
 
-	// (2) it is a DNS message.
-	m := &dns.Msg{}
-	if uerr := m.Unpack(out.msg); uerr != nil {
+	// (2) unpacks.
+	if uerr != nil {
 		bad("the %d octets written do not unpack: %v", len(out.msg), uerr)
 
 		return c, classes, violations
 	}
-
-	c.OutTC = m.Truncated
-	c.OutCounts = [3]int{len(m.Answer), len(m.Ns), vc08NonOpt(m.Extra)}
 
 	// (3) truncation is safe.  When the handler was not reached (DoQ protocol
 	// error etc.) the response is the server's own and the counts do not apply.
